@@ -507,7 +507,14 @@ func withheld(a Action) bool {
 type scriptResult struct {
 	sig, msg string
 	labels   []string
+	// the script's last (prompt) update: the units it was granted (-1: none) and how long it took
+	lastGranted int64
+	lastTook    time.Duration
+	lastPd      string
 }
+
+// unit losses: the scripts of a batch take every update together (all first updates, then all second ones ...)
+var stepGates []*sync.WaitGroup
 
 func dumpStuck() string {
 	buf := make([]byte, 8<<20)
@@ -528,8 +535,14 @@ func dumpStuck() string {
 	return strings.Join(out, "\n--\n")
 }
 
-func runScript(sc Script) scriptResult {
-	var r scriptResult
+func runScript(sc Script) (r scriptResult) {
+	r.lastGranted = -1
+	gates, gate := stepGates, 0
+	defer func() {
+		for ; gate < len(gates); gate++ {
+			gates[gate].Done()
+		}
+	}()
 	supi := env.NewSupi()
 	p := &subPlan{steps: append(append([]Step{}, sc.Steps...), Step{Abmf: Action{Kind: "prompt"}, Reserve: Action{Kind: "prompt"}})}
 	plansMu.Lock()
@@ -551,6 +564,11 @@ func runScript(sc Script) scriptResult {
 	ref := loc[strings.LastIndex(loc, "/")+1:]
 	lateSeen, laterRequest := false, false
 	for i, st := range p.steps {
+		if gate < len(gates) {
+			gates[gate].Done()
+			gates[gate].Wait()
+			gate++
+		}
 		p.mu.Lock()
 		p.step = i
 		first := len(p.exchanges)
@@ -671,6 +689,12 @@ func runScript(sc Script) scriptResult {
 				if mi.RatingGroup == 1 && mi.GrantedUnit != nil {
 					granted = int64(mi.GrantedUnit.TotalVolume)
 				}
+			}
+		}
+		if i == len(p.steps)-1 {
+			r.lastGranted, r.lastTook = granted, el
+			if o.pd != nil {
+				r.lastPd = fmt.Sprintf("%d %s %s", o.pd.Status, o.pd.Cause, o.pd.Detail)
 			}
 		}
 		desc := fmt.Sprintf("update %d (took %.1f s, reporting %d used units) of script %+v: reservation %d -> %d, granted %d; exchanges of this update: %s", i, el.Seconds(), usedPerUpdate, sc, pre.Reserved[1], post.Reserved[1], granted, describe(mine))
@@ -1026,6 +1050,75 @@ func genBatch(t *rapid.T) Batch {
 		b.Scripts = append(b.Scripts, genScript(t))
 	}
 	return b
+}
+
+// Unit losses: many answers lost in a row.  N subscribers each send one update whose tariff enquiry is never
+// answered - all of them together, nothing answered in between - and then, together again, a request the peers answer
+// at once; then the same with the account exchange.  Every one of the later requests completes, with the grant of its
+// own exchanges.
+type lossesCase struct {
+	N     int      `json:"n"`
+	Order []string `json:"order"` // the interface whose answers are lost, per phase: cost | abmf | reserve
+}
+
+func judgeLosses(c lossesCase) *h.Verdict {
+	v := &h.Verdict{}
+	for ph, what := range c.Order {
+		st := Step{Abmf: Action{Kind: "prompt"}, Reserve: Action{Kind: "prompt"}}
+		switch what {
+		case "cost":
+			st.Cost = Action{Kind: "drop"}
+		case "abmf":
+			st.Abmf = Action{Kind: "drop"}
+		case "reserve":
+			st.Reserve = Action{Kind: "drop"}
+		}
+		var b Batch
+		for i := 0; i < c.N; i++ {
+			b.Scripts = append(b.Scripts, Script{Steps: []Step{st}})
+		}
+		stepGates = []*sync.WaitGroup{{}, {}}
+		for _, g := range stepGates {
+			g.Add(c.N)
+		}
+		res := make([]scriptResult, c.N)
+		var wg sync.WaitGroup
+		for i := range b.Scripts {
+			wg.Add(1)
+			go func(i int) {
+				defer wg.Done()
+				res[i] = runScript(b.Scripts[i])
+			}(i)
+		}
+		wg.Wait()
+		stepGates = nil
+		failed, first := 0, -1
+		for i, r := range res {
+			if r.sig != "" {
+				return v.Failf(r.sig, "phase %d (%d subscribers, every %s answer lost): %s", ph, c.N, what, r.msg)
+			}
+			if r.lastGranted < 0 {
+				failed++
+				if first < 0 {
+					first = i
+				}
+			}
+		}
+		if failed > 0 {
+			return v.Failf("blocked/later-request-does-not-complete/after-many-lost-"+what+"-answers", "phase %d: %d subscribers each lost the %s answer of one update (all together, nothing answered in between); afterwards the peers answer at once, yet the next request of %d of them was not granted anything (the first: took %.1f s, answer: %q)", ph, c.N, what, failed, res[first].lastTook.Seconds(), res[first].lastPd)
+		}
+		v.Label("lost-in-a-row:" + what)
+	}
+	if c.N >= 70 {
+		v.NT("answers-lost-in-a-row>=70")
+	}
+	return v
+}
+
+func TestC19Losses(t *testing.T) {
+	h.Run(t, "C19", "losses", func(t *rapid.T) lossesCase {
+		return lossesCase{N: rapid.IntRange(70, h.Scale(110, 300)).Draw(t, "n"), Order: rapid.Permutation([]string{"cost", "abmf", "reserve"}).Draw(t, "order")}
+	}, judgeLosses)
 }
 
 func TestC19LateAnswers(t *testing.T) { h.Run(t, "C19", "scripts", genBatch, judgeBatch) }
